@@ -96,7 +96,7 @@ func Compare(e exif2.Exif, r *gen.Record, c Ctx) []string {
 			}
 		}
 		switch {
-		case isCanon && known && c.MakeBeforeModel:
+		case isCanon && known: // (wherever the two values lie: the order of the values in the file is the writer's choice)
 			if e.CameraModel == 0 || e.CameraModel.String() != *r.Model {
 				bad("CameraModel = %d (%q) for documented Canon model %q", e.CameraModel, e.CameraModel.String(), *r.Model)
 			}
